@@ -252,6 +252,32 @@ func checkECLevel(c *Ctx, r *Report) {
 			})
 		}
 		walk(fd.Body)
+		// fold first: the method on a version whose four block sets are distinguishable; what it returns for each level
+		// decides, whatever the shape of the code (a switch, a table of columns)
+		folded := map[int64]int64{}
+		{
+			blocks := &Val{K: VList}
+			for k := int64(0); k < 4; k++ {
+				blocks.L = append(blocks.L, &Val{K: VStruct, Fields: map[string]*Val{"ecCodewordsPerBlock": vint(100 + k)}})
+			}
+			ver := &Val{K: VStruct, Ptr: true, Fields: map[string]*Val{"ecBlocks": blocks, "versionNumber": vint(7)}}
+			for bitsV := int64(0); bitsV < 4; bitsV++ {
+				h := &rpf{unroll: 100, env: map[types.Object]*Val{recvObj(fp, fd): ver}}
+				res, err := c.rpfCall(fd, fp, []*Val{vint(bitsV)}, h)
+				if err != nil || len(res) != 1 {
+					folded = nil
+					break
+				}
+				for k, b := range blocks.L {
+					if res[0] == b {
+						folded[bitsV] = int64(k)
+					}
+				}
+			}
+		}
+		if folded != nil && len(folded) == 4 {
+			got = folded
+		}
 		for lv, n := range refQRLevelNames {
 			bits := int64(refQRLevelBits[lv])
 			k, ok := got[bits]
